@@ -69,14 +69,15 @@ template <class M> struct TrueHeights : M {   // recompute real subtree heights 
     int height(N* n, bool& balanced, bool& ordered, long lo, long hi) {
         if (!n) return 0;
         long k = (long)n->m_key; if (k <= lo || k >= hi) ordered = false;
+        if (!n->is_valued(atomics::memory_order_relaxed) && (!M::child(n, -1, atomics::memory_order_relaxed) || !M::child(n, 1, atomics::memory_order_relaxed))) ++damaged;   // a routing node with fewer than two children must have been unlinked
         int l = height(M::child(n, -1, atomics::memory_order_relaxed), balanced, ordered, lo, k), r = height(M::child(n, 1, atomics::memory_order_relaxed), balanced, ordered, k, hi);
         if (l - r > 1 || r - l > 1) { if (blocked_by_routing_child(n, l, r)) ++blocked; else balanced = false; }
         return 1 + (l > r ? l : r);
     }
-    int blocked = 0;
+    int blocked = 0, damaged = 0;
     void dump(N* n, std::string& out) { if (!n) { out += "-"; return; } char b[64]; snprintf(b, sizeof b, "(%ld%s h%d ", (long)n->m_key, n->is_valued(atomics::memory_order_relaxed) ? "" : "*", (int)n->m_nHeight.load(atomics::memory_order_relaxed)); out += b; dump(M::child(n, -1, atomics::memory_order_relaxed), out); out += " "; dump(M::child(n, 1, atomics::memory_order_relaxed), out); out += ")"; }
     std::string dump() { std::string o; dump(M::child(this->m_pRoot, 1, atomics::memory_order_relaxed), o); return o; }
-    bool avl(bool& ordered) { bool b = true; ordered = true; blocked = 0; erased.clear(); if (g_consistency_ctx) for (auto& e : g_consistency_ctx->hist) { if ((e.kind == ERASE || e.kind == EXTRACT) && (!e.done || e.r)) erased.insert(e.a); if ((e.kind == EXTRACT_MIN || e.kind == EXTRACT_MAX) && e.done && e.r) erased.insert(e.r3); if (e.kind == EXTRACT_MIN || e.kind == EXTRACT_MAX || e.kind == CLEAR) { if (!e.done || e.kind == CLEAR) for (long k = 0; k < 64; k++) erased.insert(k); } } height(M::child(this->m_pRoot, 1, atomics::memory_order_relaxed), b, ordered, -(1L << 60), 1L << 60); return b; }
+    bool avl(bool& ordered) { bool b = true; ordered = true; blocked = 0; damaged = 0; erased.clear(); if (g_consistency_ctx) for (auto& e : g_consistency_ctx->hist) { if ((e.kind == ERASE || e.kind == EXTRACT) && (!e.done || e.r)) erased.insert(e.a); if ((e.kind == EXTRACT_MIN || e.kind == EXTRACT_MAX) && e.done && e.r) erased.insert(e.r3); if (e.kind == EXTRACT_MIN || e.kind == EXTRACT_MAX || e.kind == CLEAR) { if (!e.done || e.kind == CLEAR) for (long k = 0; k < 64; k++) erased.insert(k); } } height(M::child(this->m_pRoot, 1, atomics::memory_order_relaxed), b, ordered, -(1L << 60), 1L << 60); return b; }
 };
 struct BF { R* r; template <class K, class V> void operator()(K const&, V& v) const { ++r->calls; r->inst = v; } };
 template <class M> struct BronA {
@@ -121,6 +122,7 @@ template <class M> struct BronP {
     bool traverse(std::vector<long>&) { return false; }
     long size() { return (long)s->size(); } bool empty() { return s->empty(); }
     bool consistent(std::string& why) { bool ordered = true; bool bal = s->avl(ordered); if (!s->check_consistency() || !ordered) { why = "BronsonAVLTreeMap<T*>: search-tree order violated at quiescence"; return false; } if (!bal) { why = "BronsonAVLTreeMap<T*>: AVL balance violated at quiescence; tree (key[* = routing node] stored-height left right): " + s->dump(); return false; }
+        if (s->damaged) { why = "BronsonAVLTreeMap<T*>: a routing node with fewer than two children is still linked at quiescence (it can never be repaired: empty() is wrong, extract_min()/clear() spin on it); tree: " + s->dump(); return false; }
         if (s->blocked) { why = "@avl-imbalance-behind-routing-node BronsonAVLTreeMap<T*>: at quiescence a node is 2 too tall on the side of a routing child (double rotation refused, never repaired); tree (key[* = routing node] stored-height left right): " + s->dump(); return false; } return true; }
     void probes(Ctx&) {}
 };
